@@ -223,7 +223,7 @@ def op_menu():
     ops.append(("wrongprefix:1:q-as-None", render_xml(docs_[1], "q"), None, docs_[1].root, None, False))
     ops.append(("wrongprefix:2:none-as-xtce", render_xml(docs_[2], "none"), "xtce", docs_[2].root, None, False))
     # loads that fail late: inside the container set (after base/nested lookups happened), and inside the parameter set
-    from mc.spec import doc_tree
+    from mc.spec import El, doc_tree
 
     def corrupt(doc, tag, attr, which=-1):
         tree = doc_tree(doc)
@@ -244,11 +244,33 @@ def op_menu():
     ops.append(("latefail:3:default:dangling-containerRef", render_xml(docs_[3], "default", tree=corrupt(docs_[3], "ContainerRefEntry", "containerRef")), None,
                 docs_[3].root, None, False))
     ops.append(("latefail:1:q:dangling-typeRef", render_xml(docs_[1], "q", tree=corrupt(docs_[1], "Parameter", "parameterTypeRef")), "q", docs_[1].root, None, False))
+    # loads that fail because a container refers back to itself (nests itself / is its own base), for containers that other documents of the
+    # menu define under the same name and refer to BEFORE they define them
+    def cyclic(doc, name, how):
+        tree = doc_tree(doc)
+        for e in walk_all(tree):
+            if e.tag == "SequenceContainer" and e.attrs.get("name") == name:
+                if how == "nest":
+                    next(k for k in e.children if k.tag == "EntryList").children.append(El("ContainerRefEntry", {"containerRef": name}))
+                else:
+                    e.children = [k for k in e.children if k.tag != "BaseContainer"]
+                    idx = next(i for i, k in enumerate(e.children) if k.tag == "EntryList")
+                    e.children.insert(idx, El("BaseContainer", {"containerRef": name}))
+        return tree
+    for di, name, how in ((5, "NEST", "nest"), (5, "C1", "base")):
+        if any(c.name == name for c in docs_[di].containers):
+            ops.append((f"latefail:{di}:xtce:cycle-{how}-{name}", render_xml(docs_[di], "xtce", tree=cyclic(docs_[di], name, how)), "xtce", docs_[di].root, None, False))
     ops.append(("malformed:truncated", render_xml(docs_[0], "xtce")[:400], "xtce", "CCSDSPacket", None, False))
     ops.append(("malformed:not-xml", b"this is not xml", "xtce", "CCSDSPacket", None, False))
     for k, (label, xml, prefix, root, strict) in enumerate(loose_docs()):
         ops.append((f"ok:{len(docs_) + k}:xtce:{label}", xml, prefix, root, len(docs_) + k, True, strict))
     return ops
+
+
+def walk_all(e):
+    yield e
+    for k in e.children:
+        yield from walk_all(k)
 
 
 def class_state():
@@ -261,10 +283,22 @@ def do_op(op):
     label, xml, prefix, root, di, ok = op[:6]
     strict = len(op) > 6 and op[6]
     import warnings
+    lim = None
+    if "cycle-" in label:
+        # a container that refers back to itself is followed until the interpreter's recursion limit stops it: a lower limit, same outcome
+        lim = sys.getrecursionlimit()
+        depth, fr = 0, sys._getframe()
+        while fr is not None:
+            depth, fr = depth + 1, fr.f_back
+        sys.setrecursionlimit(depth + 120)
     try:
         with warnings.catch_warnings():
             warnings.simplefilter("error" if strict else "ignore")
-            d = load_bytes(xml, prefix, root)
+            try:
+                d = load_bytes(xml, prefix, root)
+            finally:
+                if lim is not None:
+                    sys.setrecursionlimit(lim)
         return ("loaded", canon_digest(d))
     except Exception as e:  # noqa: BLE001
         return ("raised", type(e).__name__)
@@ -287,6 +321,8 @@ def _task_histories(task):
         for first in task["firsts"]:
             for rest in itertools.product(range(len(ops)), repeat=task["length"] - 1):
                 hist = (first,) + rest
+                if task.get("quick") and task["length"] == 3 and sum(hist) % 2:
+                    continue   # quick tier: every other history of three operations
                 for oi in hist:
                     do_op(ops[oi])
                     t.transitions += 1
@@ -384,7 +420,7 @@ def run(ctx):
         "bound": (f"spellings: {len(docs_)} base documents x 10 namespace renderings (prefix xtce, prefix q, an upper-case prefix XTCE, default namespace, none, none + xmlns:xsi, and the namespace bound twice on the root with the loader told the binding the elements do not use, the XTCE prefix next to a foreign default namespace, and next to five unrelated prefixes) x a comment at every inter-element position "
                   f"({'every position for prefix xtce/default/none, every third for q and none+xsi' if ctx.quick else 'every position'}), all at once, "
                   f"x whitespace variants x boolean attribute spellings true, True, TRUE x (every attribute written | attributes that equal their documented default left out) x character spellings (plain | numeric character references in text and attribute values | general entities of an internal DTD subset | CDATA sections) x (schema attributes that do not bear on decoding absent | present), handed over in rotation as BytesIO / binary file object / text file object / str path / pathlib.Path; histories: every sequence of <= {3 if ctx.quick else 4} operations over a {nops}-operation menu "
-                  "(15 target loads in different namespace conventions, two of them of documents with identical names and shape but different content, 2 loads of documents whose types carry two encodings in either order, a document the library warns about loaded by a caller who turns warnings into errors and by one who does not, 3 wrong-prefix loads, 4 loads that fail late inside the container/parameter set, 2 malformed inputs) followed by every target load (histories of length 4: every third target; quick tier, length 3: every other rendering target and all loose / strict targets); "
+                  "(15 target loads in different namespace conventions, two of them of documents with identical names and shape but different content, 2 loads of documents whose types carry two encodings in either order, a document the library warns about loaded by a caller who turns warnings into errors and by one who does not, 3 wrong-prefix loads, 4 loads that fail late inside the container/parameter set, loads that fail on a container that nests itself or is its own base, 2 malformed inputs) followed by every target load (histories of length 4: every third target; quick tier, length 3: every other history, followed by every other rendering target and all loose / strict targets); "
                   "breadth-first closure over the real class-level namespace state to a fixed point"),
         "rule": ("one evaluation = one load compared with the fresh-interpreter canonical form; states = reachable class-level (nsmap, prefix) states "
                  "(complete); transitions = loads performed; traces = histories replayed"),
